@@ -143,6 +143,7 @@ func runPubScenario(sc J) []stepResult {
 			}
 			min["remoteDocs"] = docs
 			min["inboxFor"] = world.spec["inboxFor"]
+			min["owned"] = world.spec["owned"]
 		}
 		obs := J{}
 		func() {
